@@ -128,6 +128,13 @@ def rule_f(ctx):
         ok = bool(st) and all(v[0] == 'bin' and v[1] == op and D.has_field(v, fld) and (D.has_call(v, 'Bytes::len')) for w, v in st)
         ctx.check(ok, 'f', 'byte_accounting_%s_%s' % (fn.split('::')[-1], fld), b, st[0][0].where() if st else b.where(), '%s %s= data.len()' % (fld, '+' if op == 'Add' else '-'),
                   '%s no longer adjusts %s by exactly the datagram length' % (fn, fld))
+    # after an MTU fallback the purge is unconditional: no `send_blocked` test may decide whether drop_oversized runs
+    for b in F.code_bodies('quinn_proto'):
+        for c in b.calls_to('DatagramState::drop_oversized'):
+            gate = [br for br in branches(F, b) if D.has_field(br.desc, 'send_blocked') and b.dominates(br.bb, c.bb) and any(c.bb not in b.reachable_from(t, avoid=[br.bb]) for v, t in br.edges)]
+            ctx.check(not gate, 'f', 'oversized_purge_not_conditional_on_blocked_sender', F.root_of(b), c.where(), 'drop_oversized() evaluated before / independently of send_blocked',
+                      'queued oversized datagrams are purged only when a sender happens to be blocked (short-circuit on send_blocked): they stay at the head of the queue forever')
+    ctx.floor('f', 'drop_oversized_call_sites', sum(len(b.calls_to('DatagramState::drop_oversized')) for b in F.code_bodies('quinn_proto')), 1)
     do = ctx.pfn('DatagramState::drop_oversized')
     st = [w for w in field_writes(F, DS, 'outgoing_total', crate='quinn_proto') if F.root_of(w.body).id == do.id]
     ctx.check(bool(st), 'f', 'byte_accounting_drop_oversized', do, do.where(), 'outgoing_total -= len in retain closure', 'drop_oversized no longer releases the dropped bytes')
